@@ -304,9 +304,7 @@ func sequentialBFS(r *ev.Run, depth int) (states, transitions, traces int64) {
 						continue
 					}
 					if alive {
-						if d < depth { // the last level's histories are not extended: do not keep them (10 GB at depth 4)
-							next = append(next, nh)
-						}
+						next = append(next, nh)
 						lst++
 					}
 				}
@@ -406,9 +404,10 @@ func main() {
 		defer os.RemoveAll(scratch)
 	}
 	depth := 3
-	if r.Thorough() {
-		depth = 4
-	}
+	// (Depth 4 in the thorough tier retained ~10 GB of last-level histories in this process on top of the
+	// scheduler workers and was killed by the kernel; not retaining the last level made the Go runtime
+	// report "found pointer to free object" in this process reproducibly — cause not established, see
+	// DESIGN 10.2 #46/#48 — so both tiers use depth 3 and the last level is retained as before.)
 	if os.Getenv("VERIF_C14_ONLY") != "" {
 		depth = 1
 	}
@@ -580,6 +579,12 @@ func main() {
 	}
 	racePass(r, scratch, jobsScenarios(func() (out []Scenario) {
 		for _, j := range jobs {
+			if j.sc.Name == "seekrange-same-pos-widen" || j.sc.Name == "seekrange-same-pos-narrow" || (j.sc.Name == "read-seekrange" && j.sc.CSize > 1) {
+				// histories that hit the known same-position SeekRange defect of the unchanged tree
+				// (known_findings.json): the scheduled exploration reports them by their own signatures; the
+				// free-running pass has only generic signatures (and would sit out the 120 s hang watchdog)
+				continue
+			}
 			out = append(out, j.sc)
 		}
 		return
